@@ -304,7 +304,7 @@ func runStack(sc *stackCase) map[string]any {
 			b.Close()
 		}
 	}()
-	s, err := stack.Start(stack.Opts{Engine: sc.Engine, Balancer: sc.Balancer, Profile: "auto", EPs: eps, Mutate: func(cfg *config.Config) {
+	s, err := stack.Start(stack.Opts{Vary: stack.VaryForJSON("c03.stack", sc), Engine: sc.Engine, Balancer: sc.Balancer, Profile: "auto", EPs: eps, Mutate: func(cfg *config.Config) {
 		switch sc.Strategy {
 		case "discovery-all":
 			cfg.ModelRegistry.RoutingStrategy.Type = "discovery"
@@ -458,7 +458,7 @@ func runRace(engine, bal string, dur time.Duration, r *vlib.Rng) map[string]any 
 			b.Close()
 		}
 	}()
-	s, err := stack.Start(stack.Opts{Engine: engine, Balancer: bal, Profile: "auto", EPs: eps})
+	s, err := stack.Start(stack.Opts{Vary: stack.VaryFor("c03.race", engine, bal), Engine: engine, Balancer: bal, Profile: "auto", EPs: eps})
 	if err != nil {
 		return map[string]any{"start_err": err.Error()}
 	}
